@@ -142,7 +142,7 @@ func (p *projector) walk1(rv reflect.Value, static bool) *av.V {
 		p.fillObject(n, rv)
 		return n
 	case reflect.Slice:
-		if t.Elem().Kind() == reflect.Uint8 {
+		if t == BytesType {
 			b := rv.Bytes()
 			if b == nil {
 				b = []byte{}
